@@ -126,6 +126,10 @@ def gen_case(seed, i):
         at = [d for d in dirs if d.count("/") == opts["depth"] - 1] or [roots[0]]
         tgt = [d for d in dirs if any(f.startswith(d + "/") for f in files)] or dirs
         w.add_symlink(rng.choice(at) + "/dl_at_limit", "@ROOT@/" + rng.choice(tgt))
+    if opts.get("i") and not opts.get("regex") and rng.random() < 0.6:
+        # case-insensitive matching of cwd-relative patterns whose case differs from the names
+        k = rng.choice(["path", "exclude"])
+        opts[k] = [rng.choice(["*/*.TXT", "*.TXT", "SUB/*", "*/readme", "*/F.TXT", "*/*/*.Txt", "A/**"])]
     rootargs = list(roots)
     r = rng.random()
     if r < 0.15:
